@@ -351,7 +351,7 @@ func init() {
 	decoders["pub/seq"] = decoder[pubSeq]()
 	builders = append(builders, func(f lib.Flags, res *lib.Result, rng *rand.Rand) []*section {
 		s := &section{name: "pub/seq",
-			tie: res.Tie("publication.ModelServer op sequences", "K1", "random sequences of 1..10 ops over 3 ids (70% an id created earlier in the sequence, 2% empty id): first op create 90%, then create 25% / update 30% (mask none 50%, subsets of body/media_type 50%; version '' 30%, current 45%, previous 15%, bogus 10%) / delete 10% / acknowledge 35% (receipt ACCEPTED/REJECTED/NO_SIGNAL, version current 75%, allow_acknowledged 40%); bodies/media types/audiences from small pools, audience absent 25%; injected clock +1 s per op; versions printed as H when equal to the independently recomputed md5 of the record's own content; non-trivial = has an update or acknowledge; distinct by request line"),
+			tie: res.Tie("publication.ModelServer op sequences", "K1", "random sequences of 1..10 ops over 3 ids (70% an id created earlier in the sequence, 2% empty id, 8% near-miss variant of an id: case, padding, prefix, extension, look-alike): first op create 90%, then create 25% / update 30% (mask none 50%, subsets of body/media_type 50%; version '' 30%, current 45%, previous 15%, bogus 10%) / delete 10% / acknowledge 35% (receipt ACCEPTED/REJECTED/NO_SIGNAL, version current 75%, allow_acknowledged 40%); bodies/media types/audiences from small pools, audience absent 25%; injected clock +1 s per op; versions printed as H when equal to the independently recomputed md5 of the record's own content; non-trivial = has an update or acknowledge; distinct by request line"),
 			mon: res.Monitor("publication.records vs Go map spec", "status codes of the version/ack protocol and the stored records: version = md5(v1,id,body,media_type,audience.name) recomputed with crypto/md5, publish time = now and receipt reset on create/update, ack sets receipt/reason/time once unless allow_acknowledged; no panic")}
 		ids := []string{"p1", "p2", "p3"}
 		bodies := []string{"hello", "world", "", "b3"}
@@ -369,6 +369,8 @@ func init() {
 				}
 				if rng.Intn(50) == 0 {
 					o.ID = ""
+				} else if rng.Intn(12) == 0 {
+					o.ID = nearMiss(rng, o.ID)
 				}
 				fill := func() {
 					o.Body, o.MediaType = pick(rng, bodies), pick(rng, mts)
